@@ -9,6 +9,7 @@ pub mod util;
 pub mod c19;
 pub mod ivp;
 pub mod c03;
+pub mod c01;
 
 pub struct Tier {
     pub thorough: bool,
@@ -22,12 +23,14 @@ impl Tier {
         c.threads = self.threads;
         if self.thorough {
             c.query_timeout_s = 120.0;
+            c.feas_timeout_s = 20.0;
             c.max_paths = 20000;
             c.max_decisions = 1500;
             c.wall_budget_s = 3600.0;
             c.validate_paths = 8;
         } else {
             c.query_timeout_s = 10.0;
+            c.feas_timeout_s = 4.0;
             c.max_paths = 3000;
             c.max_decisions = 600;
             c.wall_budget_s = 240.0;
@@ -63,6 +66,7 @@ pub fn run_property(id: &str, t: &Tier, replay: Option<(String, std::collections
     match id {
         "C19" => c19::run(&mut pr, t),
         "C03" => c03::run(&mut pr, t),
+        "C01" => c01::run(&mut pr, t),
         _ => return None,
     }
     let _ = explore;
